@@ -165,6 +165,21 @@ def run_case(data):
         P.gen_program(ch, p, ch.int(10, 50))
         base = r.evals
         r.evals = base + 5
+        if not r.violations and not p.self_closed:
+            # the ids carry on from the upgrade whatever has happened to stream 1 since (answered, closed,
+            # cleaned out of the stream table)
+            for side in 'cs':
+                conn = p.ep[side].c
+                _ = conn.open_outbound_streams, conn.open_inbound_streams      # public; triggers the clean-up
+                hi = p.m[side].hi_local
+                want = hi + 2 if hi else (1 if side == 'c' else 2)
+                try:
+                    got = conn.get_next_available_stream_id()
+                except Exception as e:   # noqa: BLE001
+                    got = type(e).__name__
+                if got != want and want < 2**31:
+                    p.violate('next-stream-id-after-program:%s' % ('client' if side == 'c' else 'server'),
+                              'library %r, ids used so far go up to %d' % (got, hi))
     if not r.violations:
         bad = P.twin_check(p, lambda: UpgRaw(vals))
         if bad:
